@@ -136,6 +136,11 @@ pub enum Query {
     /// something else the program does with the library on the same thread between two lookups
     /// (see noise.rs: other tables, motif search, set operations, ...); executed, never judged
     Noise { kind: String, arg: u64 },
+    /// a SECOND table over the same codec, alive on the same thread at the same time, mapping
+    /// (some of) the same codons to other amino acids; it is built, asked `codons` and `aminos`,
+    /// and judged against its own association list (C15 holds for every table, also when several
+    /// exist): state shared between tables shows on one side or the other
+    Sibling { entries: Vec<(String, String)>, codons: Vec<String>, aminos: Vec<String> },
 }
 
 impl Query {
@@ -144,6 +149,9 @@ impl Query {
             Query::Amino { codon, pres, off, tail, .. } => format!("amino({codon}) {pres:?}@{off}+{tail}"),
             Query::Codon { amino } => format!("codon({amino})"),
             Query::Noise { kind, arg } => format!("noise({kind},{arg:x})"),
+            Query::Sibling { entries, codons, aminos } => {
+                format!("sibling({} entries, {} codons, {} aminos)", entries.len(), codons.len(), aminos.len())
+            }
         }
     }
 }
@@ -215,6 +223,10 @@ fn gen_query(rng: &mut Rng, codon: String, per_word: usize) -> Query {
     Query::Amino { codon, pres, off, tail, fill: rng.next_u64() }
 }
 
+fn space_all(alpha: usize, max_len: usize) -> usize {
+    (1..=max_len).map(|l| alpha.pow(l as u32)).sum()
+}
+
 pub fn generate(seed: u64) -> Config {
     let mut rng = Rng::new(seed);
     let codec = if rng.chance(3, 5) { "dna" } else { "iupac" };
@@ -227,7 +239,14 @@ pub fn generate(seed: u64) -> Config {
     // logical map: choose amino symbols and a preimage count for each
     let mut entries: Vec<(String, String)> = Vec::new();
     let mut used: BTreeSet<String> = BTreeSet::new();
-    let target_total = *rng.pick(&[0usize, 1, 2, 3, 3, 4, 4, 5, 6, 8, 12, 16, 24, 48, 61, 64, 100, 200]);
+    // rarely a huge table in which one amino symbol can have more than 2^8 codons (IUPAC triplets,
+    // or DNA codons of mixed lengths: 4 + 16 + 64 + 256 = 340)
+    let huge = rng.chance(1, 160);
+    let target_total = if huge {
+        *rng.pick(&[257usize, 258, 300, 340, 513, 600, 1025])
+    } else {
+        *rng.pick(&[0usize, 1, 2, 3, 3, 4, 4, 5, 6, 8, 12, 16, 24, 48, 61, 64, 100, 200])
+    };
     let mut aminos: Vec<u8> = AMINO_LETTERS.to_vec();
     rng.shuffle(&mut aminos);
     let space: usize = if mixed {
@@ -237,12 +256,16 @@ pub fn generate(seed: u64) -> Config {
     };
     if target_total > 48 {
         // a large table (a complete genetic code has 64 codons): codons of one length from a space
-        // that is big enough, each assigned to one of k amino symbols; then a few singletons
-        let len = (1..=max_len).find(|l| alpha.len().pow(*l as u32) >= target_total).unwrap_or(max_len);
-        let total = alpha.len().pow(len as u32).min(target_total);
-        let k = rng.range(1, 21);
+        // that is big enough (all lengths together when no single length is), each assigned to one
+        // of k amino symbols (few symbols for the huge ones: > 256 codons on one symbol)
+        let fits = (1..=max_len).find(|l| alpha.len().pow(*l as u32) >= target_total);
+        let all_lengths = fits.is_none();
+        let len = fits.unwrap_or(max_len);
+        let total = if all_lengths { space_all(alpha.len(), max_len).min(target_total) } else { target_total };
+        let k = if huge { rng.range(1, 3) } else { rng.range(1, 21) };
         while entries.len() < total {
-            let c = rand_codon(&mut rng, alpha, len);
+            let l = if all_lengths { rng.range(1, max_len) } else { len };
+            let c = rand_codon(&mut rng, alpha, l);
             if used.insert(c.clone()) {
                 let a = aminos[rng.below(k)];
                 entries.push((c, (a as char).to_string()));
@@ -348,6 +371,29 @@ pub fn generate(seed: u64) -> Config {
     for _ in 0..rng.below(4) {
         blocks.push(vec![Query::Noise { kind: (*rng.pick(crate::noise::KINDS)).to_string(), arg: rng.next_u64() }]);
     }
+    if !entries.is_empty() && rng.chance(1, 3) {
+        for _ in 0..rng.range(1, 2) {
+            // same codons, other amino acids (rotated through the symbols in use, or fresh ones)
+            let mut sib: Vec<(String, String)> = Vec::new();
+            for (c, a) in &entries {
+                if rng.chance(2, 3) {
+                    let other = AMINO_LETTERS[(AMINO_LETTERS.iter().position(|x| *x == a.as_bytes()[0]).unwrap() + 1 + rng.below(20)) % 21];
+                    sib.push((c.clone(), (other as char).to_string()));
+                }
+            }
+            for _ in 0..rng.below(3) {
+                let c = rand_codon(&mut rng, alpha, base_len);
+                if sib.iter().all(|e| e.0 != c) {
+                    sib.push((c, (*rng.pick(AMINO_LETTERS) as char).to_string()));
+                }
+            }
+            let mut codons: Vec<String> = entries.iter().map(|e| e.0.clone()).collect();
+            codons.extend(sib.iter().map(|e| e.0.clone()));
+            codons.truncate(24);
+            let aminos: Vec<String> = AMINO_LETTERS.iter().map(|a| (*a as char).to_string()).collect();
+            blocks.push(vec![Query::Sibling { entries: sib, codons, aminos }]);
+        }
+    }
     let mut queries: Vec<Query> = Vec::new();
     let lens: BTreeSet<usize> = if mixed { (1..=max_len).collect() } else { [base_len].into_iter().collect() };
     for len in &lens {
@@ -402,6 +448,7 @@ pub fn generate(seed: u64) -> Config {
 pub fn model_answer(entries: &[(String, String)], q: &Query) -> String {
     match q {
         Query::Noise { .. } => "noise".into(),
+        Query::Sibling { .. } => "sibling-ok".into(),
         Query::Amino { codon, .. } => {
             let hits: Vec<&(String, String)> = entries.iter().filter(|(c, _)| c == codon).collect();
             match hits.len() {
@@ -658,6 +705,37 @@ fn panic_text(p: Box<dyn std::any::Any + Send>) -> String {
     format!("PANIC({s})")
 }
 
+
+/// Build the sibling table, ask it everything listed, compare with its own association list.
+fn run_sibling<A: CodonCodec>(entries: &[(String, String)], codons: &[String], aminos: &[String]) -> String {
+    let mut map: HashMap<Seq<A>, Amino> = HashMap::new();
+    for (c, a) in entries {
+        map.insert(
+            Seq::<A>::try_from(c.as_str()).expect("harness: parse sibling key"),
+            Amino::try_from_ascii(a.as_bytes()[0]).expect("harness: amino letter"),
+        );
+    }
+    let t: CodonTable<A, Amino> = CodonTable::from_map(map);
+    for c in codons {
+        let q = Query::Amino { codon: c.clone(), pres: QPres::Parsed, off: 0, tail: 0, fill: 0 };
+        let s = Seq::<A>::try_from(c.as_str()).expect("harness: parse sibling query");
+        let got = classify(&t.try_to_amino(&s));
+        let want = model_answer(entries, &q);
+        if got != want {
+            return format!("sibling-mismatch(amino({c}): want {want} got {got})");
+        }
+    }
+    for a in aminos {
+        let q = Query::Codon { amino: a.clone() };
+        let got = classify_codon(&t.try_to_codon(Amino::try_from_ascii(a.as_bytes()[0]).expect("harness: amino letter")));
+        let want = model_answer(entries, &q);
+        if got != want {
+            return format!("sibling-mismatch(codon({a}): want {want} got {got})");
+        }
+    }
+    "sibling-ok".into()
+}
+
 macro_rules! from_array {
     ($pairs:expr, $($n:literal),*) => {
         match $pairs.len() {
@@ -799,6 +877,7 @@ fn build_and_query<A: CodonCodec>(cfg: &Config, b: &Build) -> BuildOutcome {
                     let _ = crate::noise::run(kind, *arg);
                     "noise".into()
                 }
+                Query::Sibling { entries, codons, aminos } => run_sibling::<A>(entries, codons, aminos),
             }));
             answers.push(match (q, got) {
                 // noise belongs to other properties: never judged, not even a panic
@@ -837,6 +916,7 @@ pub struct RunStats {
     pub nonkey_queries: usize,
     pub reverse_queries: usize,
     pub noise_queries: usize,
+    pub sibling_tables: usize,
     pub distinct_orders: usize,
     pub aminos_by_preimages: [usize; 4],
     pub ctor_kinds: BTreeMap<String, usize>,
@@ -877,6 +957,7 @@ fn classify_violation(q: &Query, expected: &str, got: &str) -> &'static str {
             }
         }
         Query::Noise { .. } => "noise",
+        Query::Sibling { .. } => "sibling-table-wrong",
         Query::Codon { .. } => {
             if expected.starts_with("Ok(") && got.starts_with("Ok(") {
                 "reverse-wrong-codon"
@@ -916,6 +997,7 @@ pub fn run(cfg: &Config) -> RunResult {
             }
             Query::Codon { .. } => stats.reverse_queries += 1,
             Query::Noise { .. } => stats.noise_queries += 1,
+            Query::Sibling { .. } => stats.sibling_tables += 1,
         }
     }
     let mut pre: BTreeMap<&str, usize> = BTreeMap::new();
@@ -1096,6 +1178,7 @@ pub struct BatchOut {
     pub nonkey_queries: u64,
     pub reverse_queries: u64,
     pub noise_queries: u64,
+    pub sibling_tables: u64,
     pub getrandom_calls: u64,
     pub cross_thread_query_builds: u64,
     pub entropy_values: u64,
@@ -1116,8 +1199,9 @@ pub struct BatchOut {
     pub sample: Vec<serde_json::Value>,
 }
 
-pub fn batch(verif_seed: u64, from: u64, to: u64, hashes_path: Option<&str>) -> BatchOut {
+pub fn batch(verif_seed: u64, from: u64, to: u64, hashes_path: Option<&str>, isolate: bool) -> BatchOut {
     let mut out = BatchOut { verif_seed, from, to, ..Default::default() };
+    let exe = std::env::current_exe().expect("harness: current_exe");
     let mut digest = Digest::default();
     let mut digest_sum: u64 = 0;
     let mut nontrivial: BTreeSet<u64> = BTreeSet::new();
@@ -1126,7 +1210,42 @@ pub fn batch(verif_seed: u64, from: u64, to: u64, hashes_path: Option<&str>) -> 
     for i in from..to {
         let seed = run_seed(verif_seed, TAG_C15, i);
         let cfg = generate(seed);
-        let r = run(&cfg);
+        // One simulated run = one fresh process: nothing the code under test keeps process-wide
+        // can travel from one run to the next, so a run is a pure function of its seed and its
+        // replay (the expanded configuration, executed in a fresh process) is exact.
+        let r = if isolate {
+            let child = std::process::Command::new(&exe)
+                .args(["c15-run", "--seed", &seed.to_string()])
+                .output()
+                .expect("harness: spawn run process");
+            let text = String::from_utf8_lossy(&child.stdout);
+            match text.lines().last().and_then(|l| serde_json::from_str::<RunResult>(l).ok()) {
+                Some(r) => r,
+                None => {
+                    let code = child.status.code();
+                    if code == Some(2) {
+                        eprintln!("HARNESS-ERROR c15 run process: {}", String::from_utf8_lossy(&child.stderr));
+                        std::process::exit(2);
+                    }
+                    // the simulated process died (signal, abort): reported as a violation of this run
+                    out.runs += 1;
+                    out.violating_runs += 1;
+                    *out.violation_classes.entry("crash".to_string()).or_insert(0) += 1;
+                    if out.violations.len() < 3 {
+                        out.violations.push(serde_json::json!({
+                            "index": i, "run_seed": seed, "config": cfg,
+                            "violations": [{"class": "crash", "build": -1, "query": "-", "expected": "every call returns",
+                                "got": format!("process ended with status {:?}: {}", child.status,
+                                    String::from_utf8_lossy(&child.stderr).chars().take(200).collect::<String>()),
+                                "observed_order": null}],
+                        }));
+                    }
+                    continue;
+                }
+            }
+        } else {
+            run(&cfg)
+        };
         out.runs += 1;
         digest.feed(r.digest.as_bytes());
         digest_sum = digest_sum.wrapping_add(u64::from_str_radix(&r.digest, 16).unwrap());
@@ -1136,6 +1255,7 @@ pub fn batch(verif_seed: u64, from: u64, to: u64, hashes_path: Option<&str>) -> 
         out.nonkey_queries += (r.stats.nonkey_queries * r.stats.builds) as u64;
         out.reverse_queries += (r.stats.reverse_queries * r.stats.builds) as u64;
         out.noise_queries += (r.stats.noise_queries * r.stats.builds) as u64;
+        out.sibling_tables += (r.stats.sibling_tables * r.stats.builds) as u64;
         out.getrandom_calls += r.stats.getrandom_calls;
         out.cross_thread_query_builds += r.stats.cross_thread_query_builds as u64;
         out.entropy_values += r.stats.builds as u64;
@@ -1316,6 +1436,7 @@ pub mod conc {
                 let _ = crate::noise::run(kind, *arg);
                 "noise".into()
             }
+            Query::Sibling { entries, codons, aminos } => run_sibling::<A>(entries, codons, aminos),
         }));
         match (q, got) {
             (Query::Noise { .. }, _) => "noise".into(),
